@@ -6,3 +6,12 @@ claim("C20", "DESIGN.md §2 C20",
       "strings with one defect each; the oracle is exact Decimal arithmetic. The function is a pure formatter/parser, so "
       "dense enumeration around every representation boundary plus random sampling is the right level.",
       "Trusts decimal.Decimal and Python ints; values between the enumerated neighbourhoods are only sampled.")
+claim("C03", "DESIGN.md §2 C03",
+      "property-based testing: Hypothesis-generated wallets/requests driven through the real Transaction.create, checked against an independent value/fee model",
+      "Generated UTXO multisets (amounts around fee, dust and subset-sum boundaries; claims/supports/purchases; confirmed/unconfirmed; "
+      "pre-reserved), requested output lists, pre-chosen inputs, fee rates and every configured coin-selection strategy are run through "
+      "the real ledger/database; the oracle re-parses tx.raw itself, looks inputs up in its own UTXO model and prices the transaction "
+      "with its own size arithmetic (conservation, fee floor/ceiling, single change on the change chain, eligibility of added inputs, "
+      "justified insufficient-funds, no reservation left after failure). Random search over a very large domain: exploration level.",
+      "Insufficient-funds is only judged outside a stated don't-care band around the threshold; spendable pre-chosen inputs are assumed "
+      "reserved by the caller (as Account.fund does); 250-input/output transactions only in the thorough tier.")
